@@ -155,6 +155,7 @@ func (s *Server) serve(ctx context.Context, listener net.Listener, handler Modbu
 
 		select {
 		case <-ctx.Done():
+			_ = netConn.Close() // accepted but will never be served
 			return ErrServerClosed
 		default:
 		}
